@@ -5,8 +5,21 @@
  *   dirw <off0> <hlinks> <xattr> <parent> <namehex/num/ref/mode>...
  *                                                 sqfs_dir_writer_{begin,add_entry,end,create_inode} on a real
  *                                                 meta writer (compressor that never shrinks, memory file)
- *   meta <codec> <chunkhex>...                    sqfs_meta_writer_append per chunk + flush; codec: raw|toy|grow
- *   blk <codec> <flags> <datahex>                 static process_block() of block_processor.c
+ *   dirx <codec> <keep> <export> <off0> <hlinks> <xattr> <parent> <rootnum> <rootref> <namehex/num/ref/mode>...
+ *                                                 the same on a meta writer with a *shrinking* codec, optionally created
+ *                                                 with KEEP_IN_MEMORY (then sqfs_meta_write_write_to_file), optionally
+ *                                                 with the export table (sqfs_dir_writer_write_export_table)
+ *   meta <codec> <chunkhex>...                    sqfs_meta_writer_append per chunk + flush; codec: raw|toy|grow|trail
+ *   metak <codec> <chunkhex>...                   the same with KEEP_IN_MEMORY + sqfs_meta_write_write_to_file
+ *   table <codec> <base> <datahex>                sqfs_write_table on a file that already holds <base> bytes
+ *   blk <codec> <flags> <datahex>                 static process_block() of block_processor.c, then the static
+ *                                                 process_completed_block() of backend.c on the result (block writer
+ *                                                 stubbed): iw = the word it stores in the inode's block list,
+ *                                                 fw = the word it stores in the fragment table ('-' = untouched)
+ *   fino <op>...                                  inode.c on a fresh file inode: S<n> sqfs_inode_set_file_size, B<n>
+ *                                                 set_file_block_start, F<i>,<o> set_frag_location, X<n> set_xattr_index,
+ *                                                 e make_extended, b make_basic, P<n> what process_completed_block does
+ *                                                 for a sparse block (make_extended; file_ext.sparse += n)
  *   ids <id>...                                   sqfs_id_table_id_to_index per id, then sqfs_id_table_write
  *   idsrange <n>                                  the same for ids 0..n-1
  *   codec <gzip|xz|lz4|lz4hc|zstd> <outsize> <datahex>   the real backend's do_block (compress), then uncompress
@@ -18,6 +31,7 @@
 #include "lib/sqfs/src/dir_writer.c"
 #undef DIR_INDEX_THRESHOLD
 #include "lib/sqfs/src/block_processor/block_processor.c"
+#include "lib/sqfs/src/block_processor/backend.c"
 #include "sqfs/id_table.h"
 #include "sqfs/compressor.h"
 #include "hexio.h"
@@ -67,15 +81,30 @@ static sqfs_s32 grow_block(sqfs_compressor_t *c, const sqfs_u8 *in, sqfs_u32 siz
 	return size + 1;
 }
 
+/* trail: content dependent and invertible: a trailing run of 4..65535 equal bytes becomes [byte, run lo, run hi] */
+static sqfs_s32 trail_block(sqfs_compressor_t *c, const sqfs_u8 *in, sqfs_u32 size, sqfs_u8 *out, sqfs_u32 outsize)
+{
+	sqfs_u32 k = 1;
+	(void)c;
+	if (size == 0) return 0;
+	while (k < size && in[size - 1 - k] == in[size - 1]) ++k;
+	if (k < 4 || k > 65535 || outsize < size - k + 3) return 0;
+	memcpy(out, in, size - k);
+	out[size - k] = in[size - 1]; out[size - k + 1] = k & 0xFF; out[size - k + 2] = (k >> 8) & 0xFF;
+	return size - k + 3;
+}
+
 static sqfs_compressor_t raw_cmp = { { 1, NULL, NULL }, NULL, NULL, NULL, raw_block };
 static sqfs_compressor_t toy_cmp = { { 1, NULL, NULL }, NULL, NULL, NULL, toy_block };
 static sqfs_compressor_t grow_cmp = { { 1, NULL, NULL }, NULL, NULL, NULL, grow_block };
+static sqfs_compressor_t trail_cmp = { { 1, NULL, NULL }, NULL, NULL, NULL, trail_block };
 
 static sqfs_compressor_t *codec_by_name(const char *n)
 {
 	if (!strcmp(n, "raw")) return &raw_cmp;
 	if (!strcmp(n, "toy")) return &toy_cmp;
 	if (!strcmp(n, "grow")) return &grow_cmp;
+	if (!strcmp(n, "trail")) return &trail_cmp;
 	return NULL;
 }
 
@@ -133,6 +162,28 @@ static void op_conseq(void)
 	while (head) { e = head; head = e->next; free(e); }
 }
 
+static void print_dir_inode(const sqfs_inode_generic_t *ino)
+{
+	if (ino->base.type == SQFS_INODE_DIR) {
+		printf(" inode=basic %u %u %u %u %u idx=-", ino->data.dir.nlink, ino->data.dir.size, ino->data.dir.start_block,
+		       ino->data.dir.offset, ino->data.dir.parent_inode);
+	} else {
+		size_t o = 0, k;
+		printf(" inode=ext %u %u %u %u %u %u n=%u idx=", ino->data.dir_ext.nlink, ino->data.dir_ext.size,
+		       ino->data.dir_ext.start_block, ino->data.dir_ext.offset, ino->data.dir_ext.parent_inode,
+		       ino->data.dir_ext.xattr_idx, ino->data.dir_ext.inodex_count);
+		if (ino->payload_bytes_used == 0) putchar('-');
+		for (k = 0; o < ino->payload_bytes_used; ++k) {
+			sqfs_dir_index_t ie;
+			memcpy(&ie, (char *)ino->extra + o, sizeof(ie));
+			if (k) putchar(',');
+			printf("%u;%u;", ie.index, ie.start_block);
+			hex_print(stdout, (unsigned char *)ino->extra + o + sizeof(ie), ie.size + 1);
+			o += sizeof(ie) + ie.size + 1;
+		}
+	}
+}
+
 static void op_dirw(void)
 {
 	sqfs_meta_writer_t *dm;
@@ -170,24 +221,7 @@ static void op_dirw(void)
 	hex_print(stdout, stream + off0, n - off0);
 	printf(" size=%zu ref=%llu count=%zu", sqfs_dir_writer_get_size(dw),
 	       (unsigned long long)sqfs_dir_writer_get_dir_reference(dw), sqfs_dir_writer_get_entry_count(dw));
-	if (ino->base.type == SQFS_INODE_DIR) {
-		printf(" inode=basic %u %u %u %u %u idx=-", ino->data.dir.nlink, ino->data.dir.size, ino->data.dir.start_block,
-		       ino->data.dir.offset, ino->data.dir.parent_inode);
-	} else {
-		size_t o = 0, k;
-		printf(" inode=ext %u %u %u %u %u %u n=%u idx=", ino->data.dir_ext.nlink, ino->data.dir_ext.size,
-		       ino->data.dir_ext.start_block, ino->data.dir_ext.offset, ino->data.dir_ext.parent_inode,
-		       ino->data.dir_ext.xattr_idx, ino->data.dir_ext.inodex_count);
-		if (ino->payload_bytes_used == 0) putchar('-');
-		for (k = 0; o < ino->payload_bytes_used; ++k) {
-			sqfs_dir_index_t ie;
-			memcpy(&ie, (char *)ino->extra + o, sizeof(ie));
-			if (k) putchar(',');
-			printf("%u;%u;", ie.index, ie.start_block);
-			hex_print(stdout, (unsigned char *)ino->extra + o + sizeof(ie), ie.size + 1);
-			o += sizeof(ie) + ie.size + 1;
-		}
-	}
+	print_dir_inode(ino);
 	putchar('\n');
 	free(stream);
 	free(ino);
@@ -196,7 +230,90 @@ out:
 	sqfs_drop(dm);
 }
 
-static void op_meta(void)
+static void op_dirx(void)
+{
+	sqfs_compressor_t *c;
+	sqfs_meta_writer_t *dm;
+	sqfs_dir_writer_t *dw;
+	sqfs_inode_generic_t *ino;
+	static unsigned char fill[8192];
+	size_t off0, i, left, before, tblend;
+	int keep, exp, rc = 0;
+	if (ntok < 10 || !(c = codec_by_name(toks[1]))) { puts("bad-op"); return; }
+	keep = atoi(toks[2]); exp = atoi(toks[3]);
+	memset(fill, 0x55, sizeof(fill));
+	mf_used = 0;
+	off0 = strtoul(toks[4], NULL, 10);
+	dm = sqfs_meta_writer_create(&memfile, c, keep ? SQFS_META_WRITER_KEEP_IN_MEMORY : 0);
+	for (left = off0; left; ) { size_t k = left > sizeof(fill) ? sizeof(fill) : left; sqfs_meta_writer_append(dm, fill, k); left -= k; }
+	dw = sqfs_dir_writer_create(dm, exp ? SQFS_DIR_WRITER_CREATE_EXPORT_TABLE : 0);
+	if (sqfs_dir_writer_begin(dw, 0)) { puts("err begin"); goto out; }
+	for (i = 10; i < ntok; ++i) {
+		char *s = toks[i], *nm = field(&s), *num = field(&s), *ref = field(&s), *mode = field(&s);
+		unsigned char *nb; long nl;
+		if (!nm || !num || !ref || !mode || (nl = hex_decode_tok(nm, &nb, 1)) < 0) { puts("bad-op"); goto out; }
+		if (memchr(nb, 0, nl)) { free(nb); puts("bad-op"); goto out; }
+		rc = sqfs_dir_writer_add_entry(dw, (char *)nb, (sqfs_u32)strtoull(num, NULL, 10), strtoull(ref, NULL, 10),
+					       (sqfs_u16)strtoul(mode, NULL, 8));
+		free(nb);
+		if (rc) { printf("err %d at %zu\n", rc, i - 10); goto out; }
+	}
+	rc = sqfs_dir_writer_end(dw);
+	if (rc) { printf("err %d at end\n", rc); goto out; }
+	ino = sqfs_dir_writer_create_inode(dw, strtoul(toks[5], NULL, 10), (sqfs_u32)strtoull(toks[6], NULL, 10),
+					   (sqfs_u32)strtoull(toks[7], NULL, 10));
+	if (sqfs_meta_writer_flush(dm)) { puts("err flush"); free(ino); goto out; }
+	before = mf_used;
+	if (keep && sqfs_meta_write_write_to_file(dm)) { puts("err write_to_file"); free(ino); goto out; }
+	tblend = mf_used;
+	printf("ok filebefore=%zu table=", before);
+	hex_print(stdout, mf_data, tblend);
+	printf(" size=%zu ref=%llu count=%zu", sqfs_dir_writer_get_size(dw),
+	       (unsigned long long)sqfs_dir_writer_get_dir_reference(dw), sqfs_dir_writer_get_entry_count(dw));
+	print_dir_inode(ino);
+	free(ino);
+	if (exp) {
+		sqfs_super_t super;
+		memset(&super, 0, sizeof(super));
+		rc = sqfs_dir_writer_write_export_table(dw, &memfile, c, (sqfs_u32)strtoull(toks[8], NULL, 10),
+							strtoull(toks[9], NULL, 10), &super);
+		if (rc) printf(" export=err %d", rc);
+		else {
+			printf(" export start=%llu ", (unsigned long long)super.export_table_start);
+			hex_print(stdout, mf_data + tblend, mf_used - tblend);
+		}
+	}
+	putchar('\n');
+out:
+	sqfs_drop(dw);
+	sqfs_drop(dm);
+}
+
+static void op_table(void)
+{
+	sqfs_compressor_t *c;
+	unsigned char *d; long n; sqfs_u64 start = 0; size_t base, i, nblk;
+	int rc;
+	if (ntok != 4 || !(c = codec_by_name(toks[1])) || (n = hex_decode_tok(toks[3], &d, 1)) < 0) { puts("bad-op"); return; }
+	base = strtoul(toks[2], NULL, 10);
+	mf_used = 0;
+	{ static const unsigned char z = 0xEE; for (i = 0; i < base; ++i) mf_write_at(&memfile, i, &z, 1); }
+	rc = sqfs_write_table(&memfile, c, d, n, &start);
+	free(d);
+	if (rc) { printf("err %d\n", rc); return; }
+	nblk = (mf_used - start) / 8;
+	printf("start=%llu locs=", (unsigned long long)start);
+	if (nblk == 0) putchar('-');
+	for (i = 0; i < nblk; ++i) {
+		sqfs_u64 v; memcpy(&v, mf_data + start + 8 * i, 8);
+		printf("%s%llu", i ? "," : "", (unsigned long long)le64toh(v));
+	}
+	fputs(" file=", stdout);
+	hex_print(stdout, mf_data + base, mf_used - base);
+	putchar('\n');
+}
+
+static void op_meta(int keep)
 {
 	sqfs_compressor_t *c;
 	sqfs_meta_writer_t *m;
@@ -204,7 +321,7 @@ static void op_meta(void)
 	size_t i;
 	if (ntok < 2 || !(c = codec_by_name(toks[1]))) { puts("bad-op"); return; }
 	mf_used = 0;
-	m = sqfs_meta_writer_create(&memfile, c, 0);
+	m = sqfs_meta_writer_create(&memfile, c, keep ? SQFS_META_WRITER_KEEP_IN_MEMORY : 0);
 	for (i = 2; i < ntok; ++i) {
 		unsigned char *b; long n = hex_decode_tok(toks[i], &b, 1);
 		if (n < 0) { puts("bad-op"); sqfs_drop(m); return; }
@@ -216,10 +333,19 @@ static void op_meta(void)
 	if (sqfs_meta_writer_flush(m)) { puts("err flush"); sqfs_drop(m); return; }
 	sqfs_meta_writer_get_position(m, &blk, &off);
 	printf("end=%llu,%u ", (unsigned long long)blk, off);
+	if (keep) {
+		printf("filebefore=%zu ", mf_used);
+		if (sqfs_meta_write_write_to_file(m)) { puts("err write_to_file"); sqfs_drop(m); return; }
+	}
 	hex_print(stdout, mf_data, mf_used);
 	putchar('\n');
 	sqfs_drop(m);
 }
+
+static int stub_write_block(sqfs_block_writer_t *wr, void *user, sqfs_u32 size, sqfs_u32 checksum, sqfs_u32 flags,
+			    const sqfs_u8 *data, sqfs_u64 *location)
+{ (void)wr; (void)user; (void)size; (void)checksum; (void)flags; (void)data; *location = 4242; return 0; }
+static sqfs_block_writer_t stub_writer = { { 1, NULL, NULL }, stub_write_block, NULL };
 
 static void op_blk(void)
 {
@@ -235,8 +361,61 @@ static void op_blk(void)
 	b->flags = (sqfs_u32)strtoul(toks[2], NULL, 10); b->size = n; memcpy(b->data, d, n);
 	rc = process_block(w, b);
 	if (rc) printf("err %d\n", rc);
-	else { printf("%u ", b->flags); hex_print(stdout, b->data, b->size); putchar('\n'); }
+	else {
+		sqfs_block_processor_t *proc = calloc(1, sizeof(*proc));
+		sqfs_inode_generic_t *inode = calloc(1, sizeof(*inode));
+		sqfs_fragment_t info;
+		sqfs_u32 idx = 0;
+		printf("%u ", b->flags); hex_print(stdout, b->data, b->size);
+		inode->base.type = SQFS_INODE_FILE;
+		proc->wr = &stub_writer;
+		proc->frag_tbl = sqfs_frag_table_create(0);
+		sqfs_frag_table_append(proc->frag_tbl, 0, 0xFFFFFFFF, &idx);
+		b->inode = &inode; b->index = idx;
+		rc = process_completed_block(proc, b);
+		if (rc) printf(" err %d\n", rc);
+		else {
+			if (inode->payload_bytes_used >= sizeof(sqfs_u32)) printf(" iw=%u", inode->extra[0]); else fputs(" iw=-", stdout);
+			if (sqfs_frag_table_lookup(proc->frag_tbl, idx, &info) == 0 && info.size != 0xFFFFFFFF) printf(" fw=%u\n", info.size);
+			else puts(" fw=-");
+		}
+		sqfs_drop(proc->frag_tbl); free(inode); free(proc);
+	}
 	free(w); free(b); free(d);
+}
+
+static void op_fino(void)
+{
+	sqfs_inode_generic_t *ino = calloc(1, sizeof(*ino));
+	size_t i;
+	int rc = 0;
+	ino->base.type = SQFS_INODE_FILE;
+	for (i = 1; i < ntok && rc == 0; ++i) {
+		const char *t = toks[i];
+		char *end = NULL;
+		unsigned long long v = t[0] && t[1] ? strtoull(t + 1, &end, 10) : 0;
+		switch (t[0]) {
+		case 'S': rc = (!t[1] || *end) ? 1 : sqfs_inode_set_file_size(ino, v); break;
+		case 'B': rc = (!t[1] || *end) ? 1 : sqfs_inode_set_file_block_start(ino, v); break;
+		case 'X': rc = (!t[1] || *end) ? 1 : sqfs_inode_set_xattr_index(ino, (sqfs_u32)v); break;
+		case 'P': if (!t[1] || *end) rc = 1; else { sqfs_inode_make_extended(ino); ino->data.file_ext.sparse += (sqfs_u32)v; } break;
+		case 'F': if (!t[1] || *end != ',' || !end[1]) rc = 1;
+			  else { char *e2; unsigned long long o = strtoull(end + 1, &e2, 10); rc = *e2 ? 1 : sqfs_inode_set_frag_location(ino, (sqfs_u32)v, (sqfs_u32)o); } break;
+		case 'e': rc = t[1] ? 1 : sqfs_inode_make_extended(ino); break;
+		case 'b': rc = t[1] ? 1 : sqfs_inode_make_basic(ino); break;
+		default: rc = 1;
+		}
+	}
+	if (rc) puts(rc == 1 ? "bad-op" : "err");
+	else if (ino->base.type == SQFS_INODE_FILE)
+		printf("basic start=%u size=%u frag=%u,%u\n", ino->data.file.blocks_start, ino->data.file.file_size,
+		       ino->data.file.fragment_index, ino->data.file.fragment_offset);
+	else if (ino->base.type == SQFS_INODE_EXT_FILE)
+		printf("ext start=%llu size=%llu sparse=%llu nlink=%u frag=%u,%u xattr=%u\n", (unsigned long long)ino->data.file_ext.blocks_start,
+		       (unsigned long long)ino->data.file_ext.file_size, (unsigned long long)ino->data.file_ext.sparse, ino->data.file_ext.nlink,
+		       ino->data.file_ext.fragment_idx, ino->data.file_ext.fragment_offset, ino->data.file_ext.xattr_idx);
+	else printf("type %u\n", ino->base.type);
+	free(ino);
 }
 
 static void ids_finish(sqfs_id_table_t *t, int failed_at)
@@ -305,8 +484,12 @@ int main(void)
 		if (ntok == 0) { puts("bad-op"); continue; }
 		if (!strcmp(toks[0], "conseq")) op_conseq();
 		else if (!strcmp(toks[0], "dirw")) op_dirw();
-		else if (!strcmp(toks[0], "meta")) op_meta();
+		else if (!strcmp(toks[0], "dirx")) op_dirx();
+		else if (!strcmp(toks[0], "table")) op_table();
+		else if (!strcmp(toks[0], "meta")) op_meta(0);
+		else if (!strcmp(toks[0], "metak")) op_meta(1);
 		else if (!strcmp(toks[0], "blk")) op_blk();
+		else if (!strcmp(toks[0], "fino")) op_fino();
 		else if (!strcmp(toks[0], "ids")) op_ids(0);
 		else if (!strcmp(toks[0], "idsrange") && ntok == 2) op_ids(1);
 		else if (!strcmp(toks[0], "codec")) op_codec();
